@@ -20,6 +20,20 @@ CLAIMED = {
                 note='Trusted: pyvc encoding, floats as reals, library contracts of list.remove / bisect.insort / comprehension.',
                 technique='contract-based deductive verification: loop invariants + ghost maps, VCs from the real AST, z3'),
 }
+CLAIMED['C09'] = dict(level='proof', design='DESIGN.md section 7 (C09)',
+    text='ResourceManager / ReservedResources verified against posts taken from the property text over the abstract pool view '
+         '(usage, capacity per name; absent = 0): atomic reserve, exact release (full and partial), merge, add_resources, '
+         'nothing changes on any raising path, capacity never negative.  Three defects found as counter-models were repaired.',
+    note='Trusted: pyvc encoding, floats as reals, dict library contracts.  Hand lemma: usage = sum over outstanding reservations '
+         '(from the per-operation deltas that are machine-checked).  reserve/release assume an initialised manager.',
+    technique='contract-based deductive verification: loop invariants over dict iteration order, exceptional postconditions (frame), z3')
+CLAIMED['C10'] = dict(level='proof', design='DESIGN.md section 7 (C10)',
+    text='Waiting-request protocol verified: registration appends a copy at the back and schedules a check; capacity changes and '
+         'releases schedule a check; the check loop serves fitting waiters in list order, each callback with (manager, stored copy), '
+         'and ends with "no waiter fits or a check is pending".',
+    note='Trusted: pyvc encoding; rely on waiter callbacks (public API only); ghost flag for "check queued now"; C01 for '
+         '"time advances only when nothing is queued at now".',
+    technique='contract-based deductive verification: rely/guarantee across callbacks, ghost state, loop invariant, z3')
 NOT_APPLICABLE = {
     'C04': 'whole-line max-plus recurrence equality is a relational whole-history property outside contract-based '
            'verification (DESIGN.md section 8); its local timing lemmas are proved under C01/C05/C06',
